@@ -2098,6 +2098,19 @@ int64_t const_expr(Token **rest, Token *tok) {
   return eval(node);
 }
 
+#define EVAL_FLONUM_OP(T)          \
+  do {                             \
+    T x = lhs, y = rhs;            \
+    switch (node->kind) {          \
+    case ND_ADD: return x + y;     \
+    case ND_SUB: return x - y;     \
+    case ND_MUL: return x * y;     \
+    default: return x / y;         \
+    }                              \
+  } while (0)
+
+static long double eval_flonum(Node *node);
+
 static long double eval_double(Node *node) {
   add_type(node);
 
@@ -2107,15 +2120,30 @@ static long double eval_double(Node *node) {
     return eval(node);
   }
 
+  // FLT_EVAL_METHOD is 0: a floating expression has the range and
+  // precision of its type, exactly as the generated code computes it.
+  long double val = eval_flonum(node);
+  if (node->ty->kind == TY_FLOAT)
+    return (float)val;
+  if (node->ty->kind == TY_DOUBLE)
+    return (double)val;
+  return val;
+}
+
+static long double eval_flonum(Node *node) {
   switch (node->kind) {
   case ND_ADD:
-    return eval_double(node->lhs) + eval_double(node->rhs);
   case ND_SUB:
-    return eval_double(node->lhs) - eval_double(node->rhs);
   case ND_MUL:
-    return eval_double(node->lhs) * eval_double(node->rhs);
-  case ND_DIV:
-    return eval_double(node->lhs) / eval_double(node->rhs);
+  case ND_DIV: {
+    long double lhs = eval_double(node->lhs);
+    long double rhs = eval_double(node->rhs);
+    if (node->ty->kind == TY_FLOAT)
+      EVAL_FLONUM_OP(float);
+    if (node->ty->kind == TY_DOUBLE)
+      EVAL_FLONUM_OP(double);
+    EVAL_FLONUM_OP(long double);
+  }
   case ND_NEG:
     return -eval_double(node->lhs);
   case ND_COND:
@@ -2123,9 +2151,7 @@ static long double eval_double(Node *node) {
   case ND_COMMA:
     return eval_double(node->rhs);
   case ND_CAST:
-    if (is_flonum(node->lhs->ty))
-      return eval_double(node->lhs);
-    return eval(node->lhs);
+    return eval_double(node->lhs);
   case ND_NUM:
     return node->fval;
   }
